@@ -1983,9 +1983,11 @@ class NuclearNorm(Functional):
             space=space, linear=False, grad_lipschitz=np.nan)
 
         self.outernorm = LpNorm(self.domain[0, 0], exponent=outer_exp)
-        self.pwisenorm = PointwiseNorm(self.domain[0],
-                                       exponent=singular_vector_exp)
         self.pshape = (len(self.domain), len(self.domain[0]))
+        # There are ``min(n, m)`` singular values in each point
+        self.pwisenorm = PointwiseNorm(
+            ProductSpace(self.domain[0, 0], min(self.pshape)),
+            exponent=singular_vector_exp)
 
     def _asarray(self, vec):
         """Convert ``x`` to an array.
